@@ -29,7 +29,7 @@ CHECKS = {
             "instrument": ["gossip/bus.go", "gossip/processor.go", "gossip/topology.go@sync"], "quick": {"budget_s": 400}, "thorough": {"budget_s": 3000},
             "extra": [{"run": "TestC18Race", "race": True, "gomaxprocs": 8}]},
     "C12": {"pkg": "verifx/c12", "run": "TestC12", "harness": EXPORTS, "level": "exploration"},
-    "C14": {"pkg": "verifx/c14", "run": "TestC14", "harness": [], "level": "exploration"},
+    "C14": {"pkg": "verifx/c14", "run": "TestC14", "harness": [], "level": "exploration", "thorough": {"budget_s": 3600}},
     "C15": {"pkg": "verifx/c15", "run": "TestC15", "harness": EXPORTS2, "level": "exploration"},
     "C13": {"pkg": "verifx/c13", "run": "TestC13", "harness": EXPORTS2, "level": "exploration"},
 }
